@@ -137,7 +137,8 @@ def _wrap_kv(cls, name, kind):
                 if kind == "split" and exc is None:
                     for i, piece in enumerate(ret):
                         groups[f"piece{i}"] = list(piece)
-                if kind == "affine":  # values change: rank the two vectors separately
+                if kind == "affine" or (kind in ("iadd", "isub") and scalar_arg):
+                    # a shift / scale: values change, rank the two vectors separately
                     r1, a1 = _rank_all({"pre": pre})
                     r2, a2 = _rank_all({"post": post})
                     ranks, amb = {"pre": r1["pre"], "post": r2["post"]}, a1 or a2
